@@ -187,17 +187,107 @@ def simple_services(u):
     return L
 
 
+def edition(u):
+    """C18: where the edition in the configuration is looked at"""
+    import symtrans as st
+    request, interpret = client_env(u)
+    import udsoncan.client as uc
+    from udsoncan.exceptions import ConfigError
+    from udsoncan.connections import BaseConnection
+
+    class Conn(BaseConnection):
+        def open(self): return self
+        def close(self): pass
+        def is_open(self): return True
+        def empty_rxqueue(self): pass
+        def specific_send(self, payload): raise st.Refuse('the connection was used')
+        def specific_wait_frame(self, timeout=2): raise st.Refuse('the connection was used')
+
+    def construct(v):
+        uc.Client(Conn(), config={'standard_version': v})
+        return 0
+
+    def construct_no_timeout(v):
+        uc.Client(Conn(), config={'standard_version': v, 'request_timeout': None})
+        return 0
+
+    def set_config(v):
+        c = uc.Client(Conn(), config={})
+        c.set_config('standard_version', v)
+        return 0
+
+    def later_change(v, w):
+        """a change of the edition (possibly refused), then a change of another entry, then the edition once more, then a re-stated entry"""
+        c = uc.Client(Conn(), config={})
+        out = []
+        for key, val in (('standard_version', v), ('request_timeout', 3), ('standard_version', w), ('request_timeout', 3), ('p2_timeout', 1)):
+            try:
+                if key == 'p2_timeout':
+                    c.set_configs({key: val})
+                else:
+                    c.set_config(key, val)
+                out.append(0)
+            except ConfigError:
+                out.append(2)
+        return out
+
+    def with_std(call):
+        def f(std, *args):
+            c = uc.Client(Conn(), config={'standard_version': std})
+
+            def sr(req, timeout=-1):
+                raise st.Sent(req.get_payload())
+            c.send_request = sr
+            call(c, *args)
+            raise st.Refuse('returned without sending')
+        return f
+    return [
+        dict(name='fn_edition_at_construction', params=[('v', 'Z')], result='Z', call=construct),
+        dict(name='fn_edition_at_construction_no_timeout', params=[('v', 'Z')], result='Z', call=construct_no_timeout),
+        dict(name='fn_edition_set_config', params=[('v', 'Z')], result='Z', call=set_config),
+        dict(name='fn_edition_later_changes', params=[('v', 'Z'), ('w', 'Z')], result='S', call=later_change),
+        dict(name='fn_edition_clear_dtc_request', params=[('std', 'Z'), ('g', 'Z'), ('m', ('opt', 'Z'))], result='Y', call=with_std(lambda c, g, m: c.clear_dtc(g, m))),
+        dict(name='fn_edition_communication_control_request', params=[('std', 'Z'), ('ct', 'Z'), ('node', ('opt', 'Z'))], result='Y',
+             call=with_std(lambda c, ct, node: c.communication_control(ct, 1, node))),
+    ]
+
+
+def names(u):
+    """C20: the identifier-to-name lookups, executed on a symbolic identifier"""
+    import udsoncan.services as services
+    from udsoncan import DataIdentifier, Routine, Dtc
+    from udsoncan.ResponseCode import ResponseCode
+    L = []
+    seen = set()
+    for sname in dir(services):
+        svc = getattr(services, sname)
+        if not isinstance(svc, type):
+            continue
+        for cname, cls in vars(svc).items():
+            if isinstance(cls, type) and issubclass(cls, u.BaseService.BaseSubfunction) and cls not in seen:
+                seen.add(cls)
+                L.append(dict(name='fn_name_%s_%s' % (sname, cname), params=[('v', 'Z')], result='T', call=(lambda c: lambda v: c.get_name(v))(cls)))
+    L.append(dict(name='fn_name_nrc', params=[('v', 'Z')], result='T', call=lambda v: ResponseCode.get_name(v)))
+    L.append(dict(name='fn_name_did', params=[('v', 'Z')], result=('opt', 'T'), call=lambda v: DataIdentifier.name_from_id(v)))
+    L.append(dict(name='fn_name_routine', params=[('v', 'Z')], result=('opt', 'T'), call=lambda v: Routine.name_from_id(v)))
+    L.append(dict(name='fn_name_dtc_format', params=[('v', 'Z')], result=('opt', 'T'), call=lambda v: Dtc.Format.get_name(v)))
+    return L
+
+
 def pick(names):
     return lambda u: [sp for sp in helpers(u) if sp['name'] in names]
 
 
 # one generated file per group of properties: a function that changes (or is refused) touches the theorems of its own group only
 def files(u):
-    return [('Fn_MemLoc.v', 'udsoncan/common/MemoryLocation.py, AddressAndLengthFormatIdentifier.py',
+    # Fn_Names first: the groups about client methods replace the name lookups (used there for log lines only) by stand-ins
+    return [('Fn_Names.v', 'udsoncan/BaseService.py (BaseSubfunction.get_name on every table), ResponseCode.py, common/dids.py, common/Routine.py, common/dtc.py', names),
+            ('Fn_MemLoc.v', 'udsoncan/common/MemoryLocation.py, AddressAndLengthFormatIdentifier.py',
              pick(['fn_autosize_address', 'fn_autosize_memorysize', 'fn_alfid_byte', 'fn_addr_bytes', 'fn_size_bytes', 'fn_memloc_formats'])),
             ('Fn_Codecs.v', 'udsoncan/common/CommunicationType.py, DataFormatIdentifier.py, AddressAndLengthFormatIdentifier.py, Baudrate.py',
              pick(['fn_alfid_byte', 'fn_commtype_byte', 'fn_commtype_from_byte', 'fn_dfi_byte', 'fn_dfi_from_byte', 'fn_baud', 'fn_baud_bytes', 'fn_baud_effective'])),
             ('Fn_Filesize.v', 'udsoncan/common/Filesize.py', pick(['fn_filesize_width'])),
+            ('Fn_Edition.v', 'udsoncan/client.py (__init__, set_config, set_configs, refresh_config, validate_config, clear_dtc, communication_control)', edition),
             ('Fn_SimpleReq.v', 'udsoncan/client.py (the methods up to the call of send_request), udsoncan/services/*.py, Request.py',
              lambda u: [sp for sp in simple_services(u) if sp['name'].endswith('_request')]),
             ('Fn_SimpleInt.v', 'udsoncan/client.py (the methods, send_request replaced by a positive response with the given data), udsoncan/services/*.py, Response.py',
